@@ -257,7 +257,7 @@ def levelise_config():
             SBool(z3.ForAll([x], z3.Select(st.heap[rc.name], x) == CNT(x, n)))
         ex.prove(st, 'mustfail:there is never more than one level', SBool(ln == 1), ex.fn, expect='refuted')
 
-    contract = {'post': post, 'assign_hook': assign_hook, 'merge_ifs': True,
+    contract = {'post': post, 'assign_hook': assign_hook, 'merge_ifs': True, 'loop_match': {0: ('enumerate(self.ops)', 0)},
                 'loops': {0: {'inv': inv, 'assume': loop_assume, 'kinds': {}}}}
     return Config('any op table (TopoOps, single production)', contract, setup, None)
 
